@@ -120,6 +120,9 @@ pub fn check(em: &Emitted, all_subranges: bool) -> (Vec<(String, String)>, u64) 
             }
         }
         let step = if all_subranges { 1 } else { 3 };
+        if !STEPPED.with(|s| s.get()) {
+            b.clear();
+        }
         for (k, &s) in b.iter().enumerate() {
             for &e in b[k..].iter().step_by(step) {
                 checked += 1;
@@ -137,7 +140,18 @@ pub fn check(em: &Emitted, all_subranges: bool) -> (Vec<(String, String)>, u64) 
     (out, checked)
 }
 
+thread_local! {
+    static STEPPED: std::cell::Cell<bool> = const { std::cell::Cell::new(true) };
+}
+
 pub fn eval_program(p: &Program, all_subranges: bool, trivia: bool) -> (Vec<Failure>, u64) {
+    eval_program_with(p, all_subranges, trivia, true)
+}
+
+/// `stepped`: also the (stepped) enumeration of token-boundary sub-ranges; without it only the whole file
+/// and the ranges near hints are requested (quick tier, comment layout)
+pub fn eval_program_with(p: &Program, all_subranges: bool, trivia: bool, stepped: bool) -> (Vec<Failure>, u64) {
+    STEPPED.with(|s| s.set(stepped));
     let em = crate::pm::emit_with(p, trivia);
     let witness: String = em.files.iter().map(|f| format!("// {}\n{}", f.name, f.text)).collect::<Vec<_>>().join("\n");
     let case = json!({ "program": p, "trivia": trivia, "witness": witness });
@@ -155,7 +169,7 @@ impl Engine for C19 {
     fn rule(&self, tier: Tier) -> String {
         format!(
             "hover programs: doc comments of 0..2 lines, attached or detached by a blank line, and four shapes with a banner comment above a blank line above the documentation (only the lines below the blank line document), on class / field / def / multiclass declarations x class references with 0..3 positional arguments followed by 0..1 named ones in parent lists, class values, nested class values and defset members x field overrides x 2 layouts; \
-             plus the declaration-structure programs (wrapper depth <= {}) and the well-scoped scope programs (depth <= {}). Every program is printed twice: plainly and with a comment after every identifier. Hover is requested at every offset of every resolved identifier; inlay hints for the whole file and for {} sub-range between token boundaries and the offsets within two bytes of a hint. \
+             plus the declaration-structure programs (wrapper depth <= {}) and the well-scoped scope programs (depth <= {}). Every program is printed twice: plainly and with a comment after every identifier. Hover is requested at every offset of every resolved identifier; inlay hints for the whole file, for {} sub-range between token boundaries (quick: plain layout only) and for the ranges that begin or end within two bytes of a hint. \
              non-trivial = every program; distinct by construction.",
             tier.pick(1, 3),
             tier.pick(1, 2),
@@ -183,7 +197,7 @@ impl Engine for C19 {
                 }
                 for trivia in [false, true] {
                     ctx.trace(|| json!({ "program": p, "trivia": trivia }));
-                    let (fails, n) = eval_program(p, all, trivia);
+                    let (fails, n) = eval_program_with(p, all, trivia, all || !trivia);
                     ctx.case(true);
                     ctx.add("queries_checked", n);
                     for f in fails {
